@@ -9,10 +9,14 @@
   C05.STEP   each operator step computes `first-pushed OP last-pushed` (NaN-domain interpreter with
              symbolic finite operands), replacing its operands by exactly one value.
   C05.PAREN  the higher-order builder turns X into `( X ) op Y` with Y an atom or `( Y' )` — deque
-             effects interpreted abstractly for several shapes of Y'.
+             effects interpreted abstractly for several shapes of Y'; a second and third push on the states the
+             first leaves behind must *mean* `(held) op operand` (token stream read with the reference grammar,
+             compared as rational functions), so a folding / re-grouping shortcut may not re-associate.
   C05.EVAL   the evaluator applies all steps in list order on a fresh stack and requires one
              residual value; finalize() drains the operator stack LIFO; one name -> one fetcher.
   C05.TOK    the tokenizer's character iterator reads string[pos] only while pos < len(that same string).
+  C05.POOL   whoever caches the engines built from formula strings (the caller of ResampledFormulaBuilder.from_string)
+             keys the cache by everything that decides which expression over which inputs the engine evaluates.
   C05.ALIGN  the operands of one evaluation belong to one timestamp (first-run synchronisation; shared
              with C06.SYNC).
 
@@ -24,7 +28,7 @@ from __future__ import annotations
 import ast
 from typing import Any
 
-from ..engine.absint import Interp, Obj
+from ..engine.absint import Interp, Obj, _Raise
 from ..engine.cfg import CFG, own_parts
 from ..engine.nandomain import F
 from ..engine.report import AnalysisError, Run
@@ -783,8 +787,8 @@ class HOInterp(HelperCalls, Interp):
         self.module = module
 
     def unknown_name(self, ident: str, node: ast.AST) -> Any:
-        if ident in ("isinstance",):
-            return ("builtin", "isinstance")
+        if ident in ("isinstance", "len", "bool", "list", "tuple", "all", "any"):
+            return ("builtin", ident)
         if ident == "TokenType":
             return Obj("TokenType")
         if ident in ("FormulaEngine", "FormulaEngine3Phase", "Quantity", "float", "int",
@@ -795,7 +799,7 @@ class HOInterp(HelperCalls, Interp):
     def get_attr(self, base: Any, attr: str, node: ast.AST) -> Any:
         if isinstance(base, Obj) and base.cls == "TokenType":
             return f"TT.{attr}"
-        if isinstance(base, DequeModel) and attr in ("appendleft", "append", "extend"):
+        if isinstance(base, DequeModel) and attr in ("appendleft", "append", "extend", "popleft", "extendleft", "clear", "copy"):
             return ("deque", base, attr)
         return super().get_attr(base, attr, node)
 
@@ -806,6 +810,17 @@ class HOInterp(HelperCalls, Interp):
                 d.insert(0, pos[0])
             elif m == "append":
                 d.append(pos[0])
+            elif m == "popleft":
+                if not d:
+                    raise _Raise("IndexError", node)
+                return d.pop(0)
+            elif m == "extendleft":
+                for x in list(pos[0]):
+                    d.insert(0, x)
+            elif m == "clear":
+                del d[:]
+            elif m == "copy":
+                return DequeModel(d)
             else:
                 d.extend(pos[0])
             return None
@@ -818,8 +833,36 @@ class HOInterp(HelperCalls, Interp):
             v, classes = pos
             classes = classes if isinstance(classes, tuple) else (classes,)
             kinds = v.fields["kinds"] if isinstance(v, Obj) and "kinds" in v.fields else set()
+            if isinstance(v, bool):
+                kinds = {"bool", "int"}
+            elif isinstance(v, (int, float)):
+                kinds = {type(v).__name__}
             return any(c in kinds for c in classes)
         return super().builtin(name, pos, kw, node)
+
+    # numbers the builder computes itself (a scalar folded into a recorded constant ...) stay symbolic: the value is
+    # an expression over the operands, evaluated when the token stream's meaning is compared (check_paren)
+    def binop(self, op: ast.operator, a: Any, b: Any, node: ast.AST) -> Any:
+        sym = {ast.Add: "+", ast.Sub: "-", ast.Mult: "*", ast.Div: "/"}.get(type(op))
+
+        def numeric(v: Any) -> bool:
+            return (isinstance(v, (int, float)) and not isinstance(v, bool)) or (
+                isinstance(v, Obj) and bool(v.fields.get("kinds", set()) & {"float", "int", "Quantity"}))
+
+        if sym is not None and numeric(a) and numeric(b):
+            if not isinstance(a, Obj) and not isinstance(b, Obj):
+                try:
+                    return {"+": a + b, "-": a - b, "*": a * b}[sym] if sym != "/" else a / b
+                except ZeroDivisionError:
+                    raise _Raise("ZeroDivisionError", node) from None
+            quant = any(isinstance(v, Obj) and "Quantity" in v.fields.get("kinds", set()) for v in (a, b))
+            return Obj("Val", kinds={"Quantity"} if quant else {"float"}, expr=(sym, a, b))
+        return super().binop(op, a, b, node)
+
+    def unaryop(self, op: ast.unaryop, v: Any, node: ast.AST) -> Any:
+        if isinstance(op, ast.USub) and isinstance(v, Obj) and v.fields.get("kinds", set()) & {"float", "int", "Quantity"}:
+            return Obj("Val", kinds=set(v.fields["kinds"]), expr=("-", 0, v))
+        return super().unaryop(op, v, node)
 
     def exc_name(self, exc: ast.AST | None) -> str:
         return "RuntimeError"
@@ -832,11 +875,181 @@ class HOInterp(HelperCalls, Interp):
 
     def get_item(self, base: Any, key: Any, node: ast.AST) -> Any:
         if isinstance(base, DequeModel) and isinstance(key, int):
-            return list.__getitem__(base, key)
+            try:
+                return list.__getitem__(base, key)
+            except IndexError:
+                raise _Raise("IndexError", node) from None
         return super().get_item(base, key, node)
+
+    def set_item(self, base: Any, key: Any, v: Any, node: ast.AST) -> None:
+        if isinstance(base, DequeModel) and isinstance(key, int):
+            try:
+                list.__setitem__(base, key, v)
+            except IndexError:
+                raise _Raise("IndexError", node) from None
+            return
+        super().set_item(base, key, v, node)
 
     def truth_of(self, v: Any, node: ast.AST | None) -> bool:
         return True
+
+
+
+# ---------------------------------------------------------------------------------------------
+# what a recorded token stream *means*: the reference reading (ordinary precedence, left to right, functions bind
+# tightest -- exactly what C05.PREC demands of push_oper) as an expression tree over the operands
+class Ambiguous(Exception):
+    pass
+
+
+_REF_PREC = {"+": 1, "-": 1, "*": 2, "/": 2, "max": 3, "min": 3, "consumption": 3, "production": 3}
+
+
+def stream_tree(tokens: list[Any]) -> Any:
+    """('atom', key, label) | ('num', value) | (op, left, right) | (unary op, operand) for a token list of the
+    composition API's model (strings = opaque sub-expressions, ('TT.OPER', s), ('TT.COMPONENT_METRIC' | 'TT.CONSTANT', obj))."""
+    out: list[Any] = []
+    ops: list[str] = []
+
+    def reduce_top() -> None:
+        op = ops.pop()
+        if op in ("consumption", "production"):
+            if not out:
+                raise Ambiguous(f"`{op}` without operand")
+            out.append((op, out.pop()))
+        else:
+            if len(out) < 2:
+                raise Ambiguous(f"`{op}` lacks an operand")
+            r, l = out.pop(), out.pop()
+            out.append((op, l, r))
+
+    expect_operand = True
+    for t in tokens:
+        if isinstance(t, tuple) and len(t) == 2 and t[0] == "TT.OPER":
+            o = t[1]
+            if o == "(":
+                if not expect_operand:
+                    raise Ambiguous("`(` directly after an operand")
+                ops.append(o)
+            elif o == ")":
+                if expect_operand:
+                    raise Ambiguous("`)` directly after an operator")
+                while ops and ops[-1] != "(":
+                    reduce_top()
+                if not ops:
+                    raise Ambiguous("unbalanced `)`")
+                ops.pop()
+            elif o in _REF_PREC:
+                if expect_operand:
+                    raise Ambiguous(f"operator `{o}` where an operand is expected")
+                while ops and ops[-1] != "(" and _REF_PREC[ops[-1]] >= _REF_PREC[o]:
+                    if _REF_PREC[ops[-1]] == 3 and _REF_PREC[o] == 3 and ops[-1] != o:
+                        raise Ambiguous(f"`{ops[-1]}` and `{o}` at one parenthesis level")
+                    reduce_top()
+                ops.append(o)
+                if o in ("consumption", "production"):
+                    reduce_top()  # postfix: applies to the operand just completed
+                else:
+                    expect_operand = True
+            else:
+                raise Ambiguous(f"unknown operator token {o!r}")
+            continue
+        if not expect_operand:
+            raise Ambiguous("two operands in a row")
+        expect_operand = False
+        if isinstance(t, str):
+            out.append(("atom", t, t))
+        elif isinstance(t, tuple) and len(t) == 2 and t[0] in ("TT.COMPONENT_METRIC", "TT.CONSTANT"):
+            out.append(value_tree(t[1]))
+        else:
+            raise Ambiguous(f"token {t!r} not understood")
+    if expect_operand:
+        raise Ambiguous("the stream ends with an operator")
+    while ops:
+        if ops[-1] == "(":
+            raise Ambiguous("unbalanced `(`")
+        reduce_top()
+    if len(out) != 1:
+        raise Ambiguous(f"{len(out)} separate expressions")
+    return out[0]
+
+
+def value_tree(v: Any) -> Any:
+    if isinstance(v, Obj) and "expr" in v.fields:
+        op, a, b = v.fields["expr"]
+        return (op, value_tree(a), value_tree(b))
+    if isinstance(v, Obj):
+        return ("atom", id(v), v.fields.get("label", v.cls))
+    if isinstance(v, (int, float)) and not isinstance(v, bool):
+        return ("num", v)
+    raise Ambiguous(f"operand {v!r} not understood")
+
+
+def tree_text(t: Any) -> str:
+    if t[0] == "atom":
+        return str(t[2])
+    if t[0] == "num":
+        return repr(t[1])
+    if len(t) == 2:
+        return f"{t[0]}({tree_text(t[1])})"
+    if t[0] in ("max", "min"):
+        return f"{t[0]}({tree_text(t[1])}, {tree_text(t[2])})"
+    return f"({tree_text(t[1])} {t[0]} {tree_text(t[2])})"
+
+
+def tree_value(t: Any, env: dict[Any, Any]) -> Any:
+    from fractions import Fraction
+
+    if t[0] == "atom":
+        return env[t[1]]
+    if t[0] == "num":
+        return Fraction(t[1])
+    if len(t) == 2:
+        v = tree_value(t[1], env)
+        return max(v, Fraction(0)) if t[0] == "consumption" else max(-v, Fraction(0))
+    a, b = tree_value(t[1], env), tree_value(t[2], env)
+    if t[0] == "+":
+        return a + b
+    if t[0] == "-":
+        return a - b
+    if t[0] == "*":
+        return a * b
+    if t[0] == "/":
+        return a / b
+    return max(a, b) if t[0] == "max" else min(a, b)
+
+
+def same_value(a: Any, b: Any, seed: int = 5) -> tuple[bool, str]:
+    """Do two expression trees denote the same function of their operands?  Compared exactly (rationals) at four
+    points with distinct non-zero operand values of both signs -- two different rational functions of this size
+    do not agree on all of them."""
+    import random
+    from fractions import Fraction
+
+    if a == b:
+        return True, ""
+    atoms: dict[Any, str] = {}
+
+    def collect(t: Any) -> None:
+        if t[0] == "atom":
+            atoms[t[1]] = str(t[2])
+        elif t[0] != "num":
+            for x in t[1:]:
+                collect(x)
+
+    collect(a)
+    collect(b)
+    rng = random.Random(seed)
+    for _ in range(4):
+        env = {k: Fraction(rng.randint(2, 97), rng.randint(2, 89)) * rng.choice((1, -1)) for k in sorted(atoms, key=str)}
+        try:
+            va, vb = tree_value(a, env), tree_value(b, env)
+        except ZeroDivisionError:
+            continue
+        if va != vb:
+            point = ", ".join(f"{atoms[k]}={float(v):.3g}" for k, v in env.items())
+            return False, f"{point}: {float(va):.6g} instead of {float(vb):.6g}"
+    return True, ""
 
 
 def check_paren(run: Run, prog: Program) -> None:
@@ -845,9 +1058,9 @@ def check_paren(run: Run, prog: Program) -> None:
     mod = prog.module(ENGINE)
     OP = lambda s: ("TT.OPER", s)  # noqa: E731
     rhs_shapes = {
-        "engine": (Obj("Engine", kinds={"FormulaEngine"}), lambda o: [("TT.COMPONENT_METRIC", o)]),
-        "quantity": (Obj("Q", kinds={"Quantity"}), lambda o: [("TT.CONSTANT", o)]),
-        "float": (Obj("Flt", kinds={"float"}), lambda o: [("TT.CONSTANT", o)]),
+        "engine": (Obj("Engine", kinds={"FormulaEngine"}, label="e1"), lambda o: [("TT.COMPONENT_METRIC", o)]),
+        "quantity": (Obj("Q", kinds={"Quantity"}, label="q1"), lambda o: [("TT.CONSTANT", o)]),
+        "float": (Obj("Flt", kinds={"float"}, label="c1"), lambda o: [("TT.CONSTANT", o)]),
     }
     builder_tokens = [
         ["Y"],
@@ -855,6 +1068,7 @@ def check_paren(run: Run, prog: Program) -> None:
         [OP("("), "Y1", OP(")"), OP("-"), OP("("), "Y2", OP(")")],
     ]
     n = 0
+    first_level: list[tuple[str, str, list[Any]]] = []  # (operator, operand shape, resulting tokens) of every accepted first push
     for oper in ("+", "-", "*", "/", "max", "min"):
         scenarios: list[tuple[str, Any, list[Any]]] = []
         for name, (obj, want) in rhs_shapes.items():
@@ -881,11 +1095,14 @@ def check_paren(run: Run, prog: Program) -> None:
                 got = list(me.fields["_steps"])
                 want = [OP("("), "X", OP(")"), OP(oper)] + want_rhs
                 ok = out.kind == "return" and got == want and out.value is me
+                if out.kind == "return":
+                    first_level.append((oper, name, got))
                 run.check(ok, "C05.PAREN", push.qual, f"_push('{oper}', {name})",
                           f"builder tokens become {_fmt(got)} instead of {_fmt(want)}: the left operand "
                           "and a builder right operand must each be enclosed in their own parentheses, "
                           "otherwise the flattened token stream regroups under operator precedence",
                           node=push.node, file=push.file, instance=f"_push('{oper}', {name})")
+    n += _check_chains(run, prog, push, mod, first_level)
     for fname in ("consumption", "production"):
         fn = prog.func(f"{ENGINE}:_BaseHOFormulaBuilder.{fname}")
         run.analysed(fn.qual)
@@ -939,11 +1156,127 @@ def check_paren(run: Run, prog: Program) -> None:
                   node=m.node, file=m.file)
 
 
+
+def _check_chains(run: Run, prog: Program, push: FuncInfo, mod: Any, first_level: list[tuple[str, str, list[Any]]]) -> int:
+    """C05.PAREN beyond the first operator: `e op1 a op2 b` built through the API means `(e op1 a) op2 b`.  _push is
+    interpreted on every builder state a first push leaves behind (every operator x operand shape), for every second
+    operator x operand shape, and -- for operands that are plain constants -- a third time; whatever tokens it leaves
+    (parenthesised, or rewritten / folded in any way) are read with the reference grammar and must denote
+    `(<what the builder held>) op <operand>` as a function of the operands.  A rewrite that is only valid for some
+    operators (folding a scalar into the previous constant re-associates `/` and `-`), drops an operand or regroups
+    is reported with the operand values that show it."""
+    OP = lambda s: ("TT.OPER", s)  # noqa: E731
+    n = 0
+
+    def operand(shape: str, tag: str) -> tuple[Any, list[Any]]:
+        """(the `other` argument, the tokens that denote it)"""
+        if shape == "engine":
+            o = Obj("Engine", kinds={"FormulaEngine"}, label=f"e{tag}")
+            return o, [("TT.COMPONENT_METRIC", o)]
+        if shape in ("quantity", "float"):
+            o = Obj("Q" if shape == "quantity" else "Flt", kinds={"Quantity" if shape == "quantity" else "float"}, label=f"{'q' if shape == 'quantity' else 'c'}{tag}")
+            return o, [("TT.CONSTANT", o)]
+        toks = {"builder#0": [f"Y{tag}"], "builder#1": [OP("("), f"Y{tag}a", OP(")"), OP("+"), f"Y{tag}b"],
+                "builder#2": [OP("("), f"Y{tag}a", OP(")"), OP("-"), OP("("), f"Y{tag}b", OP(")")]}[shape]
+        return Obj("Builder", kinds={"_BaseHOFormulaBuilder"}, _steps=DequeModel(toks)), toks
+
+    def legal(oper: str, shape: str) -> bool:
+        return not (shape == "quantity" and oper in ("*", "/")) and not (shape == "float" and oper in ("+", "-", "max", "min"))
+
+    def one_push(state: list[Any], oper: str, shape: str, tag: str) -> tuple[list[Any] | None, Any, str]:
+        """(tokens after the push | None when it does not return, expected tree, description of a failure)"""
+        try:
+            held = stream_tree(state)
+        except Ambiguous:
+            return None, None, "skip"  # the first push already left a malformed stream: reported there
+        other, toks = operand(shape, tag)
+        want = (oper, held, stream_tree(toks))
+        it = HOInterp(prog, mod).bind_helpers(prog, push)
+        mes: list[Obj] = []
+
+        def make_args() -> dict[str, Any]:
+            me = Obj("Builder", kinds={"_BaseHOFormulaBuilder"}, _steps=DequeModel(state))
+            mes.append(me)
+            return {"self": me, push.params[1]: oper, push.params[2]: other}
+
+        outs = it.explore(push.node, make_args)
+        if len(outs) != 1:
+            return None, want, f"{len(outs)} abstract paths"
+        if outs[0].kind != "return" or outs[0].value is not mes[0]:
+            return None, want, f"the push {outs[0].kind}s {outs[0].value if outs[0].kind == 'raise' else 'something other than the builder'}"
+        got = list(mes[0].fields["_steps"])
+        try:
+            tree = stream_tree(got)
+        except Ambiguous as exc:
+            return got, want, f"the tokens {_fmt(got)} are not a well-formed expression ({exc})"
+        same, point = same_value(tree, want)
+        if not same:
+            return got, want, (f"the tokens {_fmt(got)} denote {tree_text(tree)}, not {tree_text(want)} (at {point})")
+        return got, want, ""
+
+    if len(push.params) < 3:
+        raise AnalysisError(f"{push.qual}: expected (self, operator, operand)")
+    shapes = ("engine", "quantity", "float", "builder#0", "builder#1", "builder#2")
+    second: dict[tuple[str, str], list[Any]] = {}
+    for op1 in ("+", "-", "*", "/", "max", "min"):
+        for op2 in ("+", "-", "*", "/", "max", "min"):
+            bad = ""
+            cases = 0
+            for o1, shape1, state in first_level:
+                if o1 != op1:
+                    continue
+                for shape2 in shapes:
+                    if not legal(op2, shape2):
+                        continue
+                    got, _want, why = one_push(state, op2, shape2, "2")
+                    if why == "skip":
+                        continue
+                    cases += 1
+                    if why and not bad:
+                        bad = f"builder holding {_fmt(state)} (`e {op1} <{shape1}>`), then `{op2} <{shape2}>`: {why}"
+                    if got is not None and not why and shape1 in ("quantity", "float") and shape2 in ("quantity", "float"):
+                        second[(op1, op2)] = got
+            n += 1
+            if not cases:
+                continue
+            run.check(not bad, "C05.PAREN", push.qual, f"_push('{op1}', a) then _push('{op2}', b) means (e {op1} a) {op2} b",
+                      f"{bad}: operators applied through the composition API are left-associative whatever came before -- a "
+                      "shortcut that merges the new operand into what was recorded (constant folding, dropping a parenthesis level) "
+                      "is only an identity for `*` and `+` chains; for `/` and `-` it re-associates to the right "
+                      "(x / c / d becomes x / (c / d))", node=push.node, file=push.file,
+                      instance=f"_push('{op1}', ..) then _push('{op2}', ..): {cases} operand shapes")
+    # a third constant in a row: the state after two pushes may already be a rewritten one
+    bad3, cases3 = "", 0
+    for (op1, op2), state in sorted(second.items()):
+        for op3 in ("+", "-", "*", "/", "max", "min"):
+            shape3 = "float" if op3 in ("*", "/") else "quantity"
+            _got, _want, why = one_push(state, op3, shape3, "3")
+            if why == "skip":
+                continue
+            cases3 += 1
+            if why and not bad3:
+                bad3 = f"builder holding {_fmt(state)} (`e {op1} k1 {op2} k2`), then `{op3} k3`: {why}"
+    if cases3:
+        n += 1
+        run.check(not bad3, "C05.PAREN", push.qual, "three constants in a row: ((e op1 k1) op2 k2) op3 k3",
+                  f"{bad3}: a rewrite of the recorded tokens must keep `((e op1 k1) op2 k2) op3 k3`", node=push.node, file=push.file,
+                  instance=f"constant chains of length three: {cases3} operator triples")
+    return n
+
+
 def _fmt(tokens: list[Any]) -> str:
     out = []
     for t in tokens:
         if isinstance(t, tuple):
-            out.append(str(t[1]) if isinstance(t[1], str) else t[0].split(".")[-1].lower())
+            if isinstance(t[1], str):
+                out.append(str(t[1]))
+            elif isinstance(t[1], Obj) and ("label" in t[1].fields or "expr" in t[1].fields):
+                try:
+                    out.append(tree_text(value_tree(t[1])))
+                except Ambiguous:
+                    out.append(t[0].split(".")[-1].lower())
+            else:
+                out.append(t[0].split(".")[-1].lower())
         else:
             out.append(str(t))
     return "[" + " ".join(out) + "]"
@@ -1684,6 +2017,107 @@ def check_digits(run: Run, prog: Program) -> None:
     run.check(ok, "C05.TOK", fn.qual, "component id: digits appended and consumed one by one", detail, node=fn.node, file=fn.file)
 
 
+
+def param_deps(fl: Flow, e: ast.AST, nid: int, fuel: int = 6) -> set[str]:
+    """The parameters of the function the value of `e` (evaluated at node nid) is computed from, through locals."""
+    out: set[str] = set()
+    for x in ast.walk(e):
+        if isinstance(x, ast.Name) and isinstance(x.ctx, ast.Load):
+            for o in fl.origin(x, nid, through_helpers=False):
+                if o.kind == "param":
+                    out.add(o.name)
+                elif o.kind in ("expr", "item", "iter") and o.node is not None and o.nid is not None and fuel > 0 and o.node is not x:
+                    out |= param_deps(o.flow, o.node, o.nid, fuel - 1)
+    return out
+
+
+def check_pool(run: Run, prog: Program) -> None:
+    """C05.POOL ("for every formula built from a formula string ... evaluated on the input values"): the string path
+    is entered through whoever calls ResampledFormulaBuilder(...).from_string(...).  When that caller hands out a
+    *stored* engine instead of building one (a cache: `if key in self.<table>: return self.<table>[key]`), the key
+    must be computed from every parameter that reaches the builder's constructor or from_string() -- otherwise a
+    second request that differs only in the forgotten parameter (another metric, another formula text) is answered
+    with the first request's engine: a well-formed stream of the wrong expression / the wrong inputs.  Parameters
+    that only reach from_string's missing-value policy are left to C13 (they do not matter for finite inputs); a key
+    that is itself a parameter is the caller's contract and not judged."""
+    rfb = prog.cls(f"{RFB}:ResampledFormulaBuilder")
+    fs = prog.resolve_method(rfb, "from_string")
+    if fs is None:
+        raise AnalysisError(f"{rfb.qual}.from_string not found")
+    policy = {p for p in fs.params if "none" in p.lower() or "zero" in p.lower()}
+    callers = 0
+    for fn in list(prog.all_functions()):
+        if fn.module is rfb.module or not find_ctor(prog, fn, rfb):
+            continue
+        fl = Flow(prog, fn)
+        cfg = fl.cfg
+        for fnid, fcall in fl.calls(lambda c: isinstance(c.func, ast.Attribute) and c.func.attr == "from_string"):
+            bo = fl.origin(fcall.func.value, fnid)  # type: ignore[union-attr]
+            ctors = [q.call() for q in bo if q.call() is not None and isinstance(q.call().func, (ast.Name, ast.Subscript))  # type: ignore[union-attr]
+                     and prog.resolve_name(fn.module, u(q.call().func).split("[")[0]) is rfb]  # type: ignore[union-attr]
+            if not ctors or len(ctors) != len(bo):
+                continue
+            callers += 1
+            run.analysed(fn.qual)
+            # what the engine is made from
+            needs: dict[str, str] = {}
+            for ctor, q in zip(ctors, bo):
+                for a in list(ctor.args) + [k.value for k in ctor.keywords]:
+                    for p in param_deps(q.flow, a, q.nid):  # type: ignore[arg-type]
+                        needs.setdefault(p, f"{rfb.name}(...)")
+            fa = positional(fcall, [p for p in fs.params if p != "self"])
+            for pname, a in fa.items():
+                for p in param_deps(fl, a, fnid):
+                    if pname in policy:
+                        continue
+                    needs.setdefault(p, f"from_string({pname}=...)")
+            needs.pop("self", None)
+            # cache hits: a returned value read out of a table of this object
+            hits: list[tuple[int, ast.AST, ast.AST]] = []  # (return node, table expression, key expression)
+            for r in fl.returns():
+                v = cfg.nodes[r].ast.value  # type: ignore[union-attr]
+                for o in (fl.origin(v, r) if v is not None else []):
+                    e = o.node if o.kind == "expr" else None
+                    if isinstance(e, ast.Subscript) and u(e.value).startswith("self."):
+                        hits.append((o.nid if o.nid is not None else r, e.value, e.slice))
+                    elif isinstance(e, ast.Call) and isinstance(e.func, ast.Attribute) and e.func.attr == "get" and u(e.func.value).startswith("self.") and e.args:
+                        hits.append((o.nid if o.nid is not None else r, e.func.value, e.args[0]))
+            if not hits:
+                run.ok("C05.POOL", f"{fn.qual}: every request builds its own engine (nothing cached)")
+                continue
+            for hn, table, key in hits:
+                ko = fl.origin(key, hn)
+                if ko and all(q.kind == "param" and q.name not in needs for q in ko):
+                    run.ok("C05.POOL", f"{fn.qual}: the cache key `{u(key)}` is supplied by the caller")
+                    continue
+                have = param_deps(fl, key, hn)
+                missing = sorted(p for p in needs if p not in have)
+                run.check(not missing, "C05.POOL", fn.qual, f"cache key of {u(table)} covers what the engine is built from",
+                          f"`{u(table)}[{u(key)}]` hands out a stored engine, but the key is computed from {sorted(have) or 'nothing'} only while the "
+                          f"engine is built from {', '.join(f'{p} (-> {needs[p]})' for p in sorted(needs))}: a later request that differs only in "
+                          f"{missing} gets the engine of the earlier one -- the samples it emits are the value of the expression on the WRONG "
+                          "inputs (another metric of the same components) or of another expression, with perfectly plausible timestamps.  "
+                          "Every parameter that selects the expression or its inputs has to be part of the key",
+                          node=key, file=fn.file, instance=f"{fn.qual}: key `{u(key)}` of {u(table)}")
+                # ... and the engine is stored under the key it is looked up with
+                stores = [n for n in cfg.nodes if n.id in fl.live and isinstance(n.ast, ast.Assign) and isinstance(n.ast.targets[0], ast.Subscript)
+                          and u(n.ast.targets[0].value) == u(table)]
+                ok = bool(stores) and all(names_eq(fl.origin(n.ast.targets[0].slice, n.id), ko) or (  # type: ignore[union-attr]
+                    not isinstance(n.ast.targets[0].slice, ast.Name) and u(n.ast.targets[0].slice) == u(key)) for n in stores)  # type: ignore[union-attr]
+                run.check(ok, "C05.POOL", fn.qual, f"{u(table)} is filled under the key it is read with",
+                          f"the engine is stored in {u(table)} under another key than the one it is looked up with", node=key, file=fn.file,
+                          instance=f"{fn.qual}: store key of {u(table)}")
+    if not callers:
+        raise AnalysisError(f"no caller of {rfb.qual}(...).from_string(...) found: the entry point of the formula-string path moved")
+
+
+def find_ctor(prog: Program, fn: FuncInfo, cls: ClassInfo) -> bool:
+    if cls.name not in fn.module.source:
+        return False
+    return any(isinstance(c, ast.Call) and isinstance(c.func, (ast.Name, ast.Subscript)) and u(c.func).split("[")[0] in fn.module.imports | fn.module.classes.keys()
+               and prog.resolve_name(fn.module, u(c.func).split("[")[0]) is cls for c in ast.walk(fn.node))
+
+
 def build_controls(prog: Program) -> list[tuple[str, str, str, str, str]]:
     """Seeded in-memory controls cut out of the live source at structurally located anchors."""
     import re
@@ -1766,6 +2200,32 @@ def build_controls(prog: Program) -> list[tuple[str, str, str, str, str]]:
                 if opens:
                     add("builder operand not parenthesised", ENGINE, stmt_patch(push, opens[-1], lambda t: f"{indent_of(t)}pass\n"), "C05.PAREN")
                 break
+    # PAREN: a scalar divisor folded into the previously recorded one (x / c / d -> x / (c / d))
+    if push is not None and len(push.params) >= 3:
+        body = [b for b in push.node.body if not (isinstance(b, ast.Expr) and isinstance(b.value, ast.Constant))]
+        if body:
+            first = body[0]
+            ind = " " * first.col_offset
+            op_, ot_ = push.params[1], push.params[2]
+            fold = (f'{ind}if {op_} == "/" and isinstance({ot_}, float) and len(self._steps) > 2 and self._steps[-2] == (TokenType.OPER, "/") '
+                    f'and self._steps[-1][0] == TokenType.CONSTANT:\n'
+                    f'{ind}    self._steps.append((TokenType.CONSTANT, self._steps.pop()[1] / {ot_}))\n'
+                    f'{ind}    return self\n')
+            add("scalar divisor folded into the previous one", ENGINE, src_patch(eng, first.lineno, first.lineno, lambda t, fold=fold: fold + t), "C05.PAREN")
+    # POOL: the cache of string formulas keyed by the formula text alone
+    rfb_cls = prog.cls(f"{RFB}:ResampledFormulaBuilder")
+    for fn_ in prog.all_functions():
+        if fn_.module is rfb_cls.module or not find_ctor(prog, fn_, rfb_cls):
+            continue
+        fcalls = [c for c in ast.walk(fn_.node) if isinstance(c, ast.Call) and isinstance(c.func, ast.Attribute) and c.func.attr == "from_string" and c.args]
+        keys = [a for a in ast.walk(fn_.node) if isinstance(a, ast.Assign) and len(a.targets) == 1 and isinstance(a.targets[0], ast.Name)
+                and any(isinstance(x, ast.Subscript) and isinstance(x.slice, ast.Name) and x.slice.id == a.targets[0].id for x in ast.walk(fn_.node))]
+        if fcalls and keys:
+            ftxt = seg(fn_.module, fcalls[0].args[0])
+            k = keys[0]
+            add("string-formula cache keyed by the text alone", fn_.module.name, stmt_patch(
+                fn_, k, lambda t, k=k, ftxt=ftxt: f"{indent_of(t)}{k.targets[0].id} = {ftxt}\n"), "C05.POOL")
+            break
     # EVAL: steps applied in reverse
     ev = prog.cls(f"{EVAL}:FormulaEvaluator")
     done = False
@@ -1823,7 +2283,7 @@ def build_controls(prog: Program) -> list[tuple[str, str, str, str, str]]:
     # ALIGN: drain loops of the first-run synchronisation interchanged
     add("drain loops interchanged", EVAL, interchange_patch(prog), "C05.ALIGN")
     if len(out) < 6:
-        raise AnalysisError(f"C05: only {len(out)} of 15 seeded controls could be derived from the source ({[o[0] for o in out]})")
+        raise AnalysisError(f"C05: only {len(out)} of 17 seeded controls could be derived from the source ({[o[0] for o in out]})")
     return out
 
 
@@ -1836,6 +2296,7 @@ def run_rules(run: Run, prog: Program) -> None:
     check_tok(run, prog)
     check_digits(run, prog)
     check_ho_build(run, prog)
+    check_pool(run, prog)
     check_shared(run, prog)
     from .c06 import check_sync as first_run_sync
 
@@ -1848,9 +2309,12 @@ def check(run: Run, prog: Program, tier: str) -> str:
     run.rule("C05.TAB", "tokenizer ⊆ precedence table; table key == repr of the step class pushed for it; "
              "consumers handle every token type")
     run.rule("C05.STEP", "each step computes first-pushed OP last-pushed and leaves exactly one value")
-    run.rule("C05.PAREN", "HO builder: X -> ( X ) op Y with Y atom or ( Y' ), for several shapes of Y'")
+    run.rule("C05.PAREN", "HO builder: X -> ( X ) op Y with Y atom or ( Y' ), for several shapes of Y'; pushes on the resulting "
+             "states keep the meaning (held) op operand (left-associative chains, no re-associating rewrite of recorded tokens)")
     run.rule("C05.EVAL", "all steps applied in order on a fresh stack; one residual; LIFO finalize; shared fetcher")
     run.rule("C05.TOK", "the tokenizer's character iterator reads string[pos] only while pos < len(that same string), from 0")
+    run.rule("C05.POOL", "a cache of engines built from formula strings is keyed by every parameter that selects the expression or "
+             "its inputs (formula text, metric id, ...), and filled under the key it is read with")
     run.rule("C05.NAN", "an undefined sub-expression (NaN, e.g. from a zero divisor) stays undefined through every enclosing step "
              "(shared with C13.NAN / C13.UNDEF)")
     run.rule("C05.ALIGN", "the values combined by one evaluation belong to one timestamp: the first-run synchronisation advances "
@@ -1863,9 +2327,10 @@ def check(run: Run, prog: Program, tier: str) -> str:
     run.floor("C05.PREC", 30)
     run.floor("C05.TAB", 12)
     run.floor("C05.STEP", 10)
-    run.floor("C05.PAREN", 40)
+    run.floor("C05.PAREN", 70)
     run.floor("C05.EVAL", 6)
     run.floor("C05.TOK", 6)
+    run.floor("C05.POOL", 1)
     run.floor("C05.ALIGN", 8)
     run.floor("C05.NAN", 12)
     from ..engine.controls import run_controls
